@@ -266,7 +266,13 @@ impl<'tcx> Cx<'tcx> {
                 } else {
                     // plain owning containers are transparent: the leaf is named after the first
                     // extern ADT inside them that is not a container
-                    let p = self.dp(did).replace("alloc::alloc::", "std::");
+                    let mut p = self.dp(did).replace("alloc::alloc::", "std::");
+                    if tcx.crate_name(did.krate).as_str() == "alloc" && !p.starts_with("std::") && !p.starts_with("alloc::") {
+                        // the alloc crate linked under another name (`extern crate alloc as x`): named as std builds name it
+                        if let Some(i) = p.find("::") {
+                            p = format!("std{}", &p[i..]);
+                        }
+                    }
                     let transparent = p == "std::boxed::Box"
                         || p == "std::vec::Vec"
                         || p == "core::option::Option"
